@@ -120,7 +120,10 @@ def recorded_run(tf, workdir, hist, op, auto=True, storage_kwargs=None, other_fs
         if mode is not None:
             # close, then open the same file again in the requested access mode
             s.driver.close()
-            s.driver = dbimpl.Driver(tf, True, auto, s.dbdir, dict(s.kw, access_mode=mode))
+            try:
+                s.driver = dbimpl.Driver(tf, True, auto, s.dbdir, dict(s.kw, access_mode=mode))
+            except Exception as e:  # noqa  (e.g. mode "a" with auto_index: the initial reindex cannot read)
+                return dict(open_failed=type(e).__name__, houts=houts)
         before_bytes = read_file(s.path)
         before = s.contents()
         lst_before = (listing(s.dbdir), listing(s.tmpdir))
@@ -242,9 +245,9 @@ COQ_HEAD = ("From Coq Require Import List ZArith NArith Bool.\nFrom TF Require I
             " | PSeek0 => 6 | PNext => 7 | PTruncate0 => 8 | PClose => 9 | POpen => 10 | TCreate => 11 | TSeekEnd => 12 | TWrite _ => 13 | TFlush => 14\n"
             " | TFileno => 15 | TFsync => 16 | TTruncate => 17 | TClose => 18 | TRemove => 19 | CopyOpen => 20 | CopyMid => 21 | CopyDone => 22 | Replace => 23 end.\n"
             "(* the model's state before the last op, and its plan/script for that op *)\n"
-            "Definition before (auto : bool) (hist : list op) : state := snd (run twinE twinC csv_norm false (init auto) hist).\n"
+            "Definition before (auto : bool) (hist : list op) : state := snd (run twinE twinC csv_norm (init auto) hist).\n"
             "Definition the_script (auto : bool) (hist : list op) (o : op) : list iostep :=\n"
-            "  let s := before auto hist in let s' := fst (step twinE twinC csv_norm false s o) in\n"
+            "  let s := before auto hist in let s' := fst (step twinE twinC csv_norm s o) in\n"
             "  script_of (st_rows s) (plan_of o (st_rows s) (st_rows s')).\n"
             "Definition crash_ok (auto : bool) (hist : list op) (o : op) (obs : list (list point)) : bool :=\n"
             "  let s := before auto hist in let ss := the_script auto hist o in\n"
